@@ -603,11 +603,12 @@ class Collection(object):
             partial_filter_expression = index.get('partialFilterExpression')
             find_kwargs = {}
             for key, _ in unique:
+                # $eq: the value is data, also when it looks like a query operator
                 try:
-                    find_kwargs[key] = helpers.get_value_by_dot(new_data, key)
+                    find_kwargs[key] = {'$eq': helpers.get_value_by_dot(new_data, key)}
                 except KeyError:
-                    find_kwargs[key] = None
-            if is_sparse and all(value is None for value in find_kwargs.values()):
+                    find_kwargs[key] = {'$eq': None}
+            if is_sparse and all(value['$eq'] is None for value in find_kwargs.values()):
                 continue
             if partial_filter_expression is not None:
                 find_kwargs = {'$and': [partial_filter_expression, find_kwargs]}
